@@ -173,7 +173,6 @@ Next ==
                   \* `local` written inside a function but after a nested function definition: the
                   \* statement does not say; not generated
                   /\ ~(Frags[row.f].why = "local outside a function" /\ InFunction(cs) /\ \E i \in 1..d : cs[i] = 11)
-                  /\ (d = 3 => (cs[1] + 2 * cs[2] + 3 * cs[3] + row.f + ec) % 11 = 0)
                   /\ row' = MkRows(row.f, ec, cs)
      \/ /\ row.k = "t0"
         /\ \E n \in 1..(Len(Valid[row.v]) - 1) :
